@@ -527,9 +527,10 @@ class QMI_Context:
         for stop_handler in self._stop_handlers:
             try:
                 stop_handler()
-            except Exception as exc:
-                # The callback function failed, but we still want to
-                # continue shutting down QMI. Report the exception and ignore.
+            except BaseException as exc:
+                # The callback function failed (with whatever exception class, including SystemExit or
+                # KeyboardInterrupt), but we still want to continue shutting down QMI: an aborted stop()
+                # would leave the context active with all its threads. Report the exception and ignore.
                 _logger.exception("QMI stop handler failed: %s", str(exc))
             del stop_handler
 
